@@ -1,2 +1,6 @@
 #!/bin/sh
-exit 0
+# builds the MIR fact extractor once (offline, nightly toolchain with rustc-dev)
+set -e
+cd "$(dirname "$0")/engine/mirfacts"
+CARGO_NET_OFFLINE=true CARGO_TARGET_DIR="$PWD/target" cargo +nightly build --release --offline
+test -x target/release/mirfacts
